@@ -1,6 +1,6 @@
 # -*- coding: utf-8 -*-
 """C11 MDL / MRV round trip -- code books, role order, record-loop discipline."""
-from ..r_mdl import rule_record_loop, rule_v2000_books, rule_rxn_roles, rule_mrv_attributes, rule_rxn_drop_bookkeeping, rule_star_point_lookup
+from ..r_mdl import rule_record_loop, rule_v2000_books, rule_rxn_roles, rule_mrv_attributes, rule_rxn_drop_bookkeeping, rule_star_point_lookup, rule_rdf_header_once
 from ..r_readers import rule_raise_family, MDL
 from ..r_reaction import rule_role_zip
 from ..r_hygiene import rule_hygiene as _rule_hygiene
@@ -36,3 +36,4 @@ def run(ck, repo):
     _rule_retry_flush(ck, repo, 'C11.D5-retry-flush', ['chython.files.mdl.stereo'], 1)
     rule_rxn_drop_bookkeeping(ck, repo, 'C11.D1-dropped-component-bookkeeping')
     rule_star_point_lookup(ck, repo, 'C11.D3-star-point-lookup')
+    rule_rdf_header_once(ck, repo, 'C11.D3-rdf-header-once')
